@@ -3,7 +3,7 @@ Lane SIM: exact ordering/timing of death notice vs pending ACK/READY messages
 in virtual time (grace period, first-detection, message names the status, no
 loss without a lost owner, every handle kind).  Lane REAL (vmon.real_c04):
 fault matrix of signals / exit statuses x crash points x job kinds on real
-pools."""
+pools.  Death causes include signals without a symbolic name (real-time signals); imap / imap_unordered with chunks (SIM and REAL): the grace period is the one the caller asked for; an imap consumer gets the other parts' values and exactly one failure per lost part (ordered: at that part's position) and the iterator ends."""
 from vmon import simcheck
 
 PROPERTY = 'C04'
